@@ -19,6 +19,12 @@ import tempfile
 FAKE = r"""#!/bin/sh
 cmd=$(basename "$0")
 ctl="$(dirname "$0")/../ctl"
+if [ -n "$GWFV_BARRIER" ]; then
+  # concurrent-invocation probe: announce the call and wait until the driver lets this process go on
+  k=$(( $(cat "$GWFV_BARRIER/k.$GWFV_TAG" 2>/dev/null || echo 0) + 1 )); echo "$k" > "$GWFV_BARRIER/k.$GWFV_TAG"
+  : > "$GWFV_BARRIER/arrived.$GWFV_TAG.$k.$cmd"
+  while [ ! -e "$GWFV_BARRIER/go.$GWFV_TAG.$k" ]; do sleep 0.01; done
+fi
 seq=$(( $(cat "$ctl/seq") + 1 )); echo "$seq" > "$ctl/seq"
 n=$(( $(cat "$ctl/n.$cmd" 2>/dev/null || echo 0) + 1 )); echo "$n" > "$ctl/n.$cmd"
 c="$ctl/calls/$seq"
